@@ -202,3 +202,20 @@ Proof.
   rewrite IH by (rewrite synthesis_stage_length; exact Hev).
   apply stage_inverse, Hev.
 Qed.
+(* the loops never index outside the array: the defaults of [nth] in the model are never used
+   (Python would raise IndexError there) *)
+Lemma tap_pos_in_range : forall odd len n i, 2 <= len -> 0 <= tap_pos odd len n i < len.
+Proof. intros odd len n i H. unfold tap_pos. destruct odd; lia. Qed.
+
+Lemma div2_lt : forall n len, (n < Nat.div2 len)%nat -> (2 * n + 1 < len)%nat.
+Proof.
+  intros n len H. destruct (Nat.even len) eqn:E.
+  - apply even_double in E. lia.
+  - assert (E' : Nat.odd len = true) by (rewrite <- Nat.negb_even, E; reflexivity).
+    apply Nat.odd_spec in E'. destruct E' as [k ->].
+    replace (2 * k + 1)%nat with (S (2 * k)) in * by lia. rewrite Nat.div2_succ_double in H. lia.
+Qed.
+
+Lemma write_pos_in_range : forall (odd : bool) (A : list Z) n, (n < Nat.div2 (length A))%nat ->
+  ((if odd then 2 * n + 1 else 2 * n) < length A)%nat /\ 2 <= Z.of_nat (length A).
+Proof. intros odd A n H. apply div2_lt in H. destruct odd; lia. Qed.
